@@ -95,12 +95,18 @@ func c19Scenario(files []c19File, ids [][16]byte, count uint32, present []bool) 
 
 // the number of checksum pairs disagrees with the file length
 func VerifHarness_C19_ifsc_count() {
-	pairs := 1 + rt.Choice("pairs", 4) // the 5-byte file has 2 slices
+	pairs := rt.Choice("pairs", 5) // the 5-byte file has 2 slices; 0 = an empty checksum list
 	f := c19MakeFile("f0", []byte{1, 2, 3, 4, 5}, pairs)
 	state := rt.Choice("dataState", 3)
 	s := c19Scenario([]c19File{f}, [][16]byte{f.id}, 1, []bool{state != 1})
 	if state == 2 {
 		s.fs.put(s.paths[0], []byte{9, 2, 3, 4, 5})
+	}
+	if state == 1 {
+		res, err := verify(s.fs, scnIndex, VerifyOptions{NumGoroutines: 1})
+		if err == nil {
+			rt.Assert(res.ShardCounts.RepairNeeded(), "the only protected file (declared length 5) is absent: a result without error says repair is needed")
+		}
 	}
 	robustOps(s, false)
 }
